@@ -1459,6 +1459,15 @@ func modeSched(a args) {
 			explore(a, st, g, false, a.n(3, 12), r, true)
 		})
 	}
+	// 2c'. a comb: chain s -> y -> w with a leaf behind every link; the three leaves are independent of each other and
+	// may all be in flight together although they sit on different levels of the graph
+	add(func() {
+		g := &graphSpec{Stages: []stageSpec{
+			{Name: "s", Outcome: oOK}, {Name: "y", Outcome: oOK, Deps: []string{"s"}}, {Name: "w", Outcome: oOK, Deps: []string{"y"}},
+			{Name: "x1", Outcome: oOK, Deps: []string{"s"}}, {Name: "x2", Outcome: oOK, Deps: []string{"y"}}, {Name: "x3", Outcome: oOK, Deps: []string{"w"}},
+		}}
+		explore(a, st, g, true, 0, nil, false)
+	})
 	// 2d. one pipeline included by two stages, the second includer held back by a stage of its own, dependants
 	// behind both includers; every outcome of the inner stages and of the includers, every completion order
 	for _, chain := range []bool{false, true} {
